@@ -3,8 +3,10 @@ use h_common::main_with;
 mod send_driver;
 #[path = "../streams_driver.rs"]
 mod streams_driver;
+#[path = "../manager_driver.rs"]
+mod manager_driver;
 
 fn main() {
     // `ssr` is the same driver; only the judgement applied to its output differs
-    main_with(&[("st", streams_driver::st), ("ss", send_driver::ss), ("ssr", send_driver::ss)]);
+    main_with(&[("st", streams_driver::st), ("sm", manager_driver::sm), ("ss", send_driver::ss), ("ssr", send_driver::ss)]);
 }
